@@ -212,6 +212,20 @@ example : isSome (formatEventAsClassicLogText { ev0 with failure := some .hostil
 example : isText (formatUnformattableEvent { ev0 with extras := [("k0", .hostile)] } ⟨.valueError, .bad .keyboardInterrupt⟩
     ⟨[.text "ok".toList, ki], []⟩) (mark lostMark) = true := by decide
 
+-- bytes where a text is expected (mutation audit M55): `log_system` is `b"\xff"`, `getTraceback()` returns
+-- `b"\xff"`, a caller-supplied `formatTime` returns `b"\xff"` — the bytes are described, never decoded
+example : isText (eventAsText { ev0 with system := some .bytes, failure := some .hostile }
+    ⟨true, true, true⟩ .custom ⟨[.bytes, .bytes], []⟩)
+    "- [b'\\xff'] hello\n(UNABLE TO OBTAIN TRACEBACK FROM EVENT):getTraceback returned bytes, not str" = true := by decide
+
+-- a bytes `log_failure` / `log_level`, a field whose value is bytes formatted with `!r` and with a width
+example : isText (eventAsText
+    { ev0 with format := .str [.field ⟨.name "k0" false, [], .r, .plain []⟩, .field ⟨.name "k0" false, [], .none, .plain ['>', '9']⟩],
+               level := some .bytes, failure := some .bytes, extras := [("k0", .bytes)] }
+    ⟨true, false, true⟩ .default ⟨[], []⟩)
+    ("[UNFORMATTABLE] " ++ mark unableMark ++
+      "\n(UNABLE TO OBTAIN TRACEBACK FROM EVENT):'bytes' object has no attribute 'getTraceback'") = true := by decide
+
 /-! ### Why the guards are needed: the code before the repair
 
 Transcription of `_formatTraceback`, `_formatSystem` and `eventAsText` as they were before the
@@ -237,6 +251,7 @@ def formatSystemOld (ev : Event) : M Text :=
       | .none | some .none => ret (Val.text ['-'])
       | some .hostile => anyVal .getattr          -- level.name: unguarded
       | some (.text _) => raise (plainExc .attributeError)
+      | some .bytes => raise (plainExc .attributeError)
     let ns := match ev.namespace_ with
       | .none => Val.text ['-']
       | some v => v
@@ -350,6 +365,7 @@ theorem whyText_total (w : Option Val) : Returns (whyText w) := by
   · split
     · exact returns_ret _
     · exact returns_ret _
+  · exact safeStrVal_total _
   · exact safeStrVal_total _
 
 /-- the guarded `failure.getTraceback()` of the legacy path never raises (raise anything, return a
@@ -547,6 +563,12 @@ example : isSome (textFromEventDict { lev0 with message := [.hostile, .text "b".
 -- nothing to log: None
 example : isNone (textFromEventDict { lev0 with isError := true } ⟨[], []⟩) = true := by decide
 
+-- bytes in the legacy dict (mutation audit M55): an undecodable `why`, `getTraceback()` returning bytes, bytes in the message
+example : isSome (textFromEventDict { lev0 with isError := true, failure := some .hostile, why := some .bytes }
+    ⟨[.bytes], []⟩) "b'\\xff'\n(unable to obtain traceback): getTraceback returned bytes, not str" = true := by decide
+example : isSome (textFromEventDict { lev0 with message := [.bytes, .hostile] } ⟨[.bytes], []⟩)
+    ("b'\\xff' " ++ mark safeStrMark) = true := by decide
+
 -- the tape hypothesis is satisfiable by hostile tapes
 example : TapeNoKI [.raises ⟨.systemExit, .bad .keyboardInterrupt⟩, .none, .obj, .raises ⟨.hostileBase, .nonText⟩] := by
   intro o ho
@@ -613,6 +635,7 @@ theorem timeStampPart_shape (ev : Event) (fl : Flags) (fn : TimeFn) (h : fl.incl
     cases v with
     | none => cases ht
     | hostile => cases ht
+    | bytes => cases ht
     | text t' =>
       cases ht
       rcases hT : ev.time with _ | _ | _ | _ | _ | _ | w
@@ -675,7 +698,7 @@ theorem formatSystem_cases (ev : Event) (s : St) :
       refine ⟨Or.inl rfl, ?_⟩
       rw [hsys] at hm
       simp only at hm
-      rcases hl : ev.level with _ | (_ | _ | _) <;> rw [hl] at hm <;> simp only at hm
+      rcases hl : ev.level with _ | (_ | _ | _ | _) <;> rw [hl] at hm <;> simp only at hm
       all_goals
         obtain ⟨ln, s1, _, h2⟩ := bind_ok_inv hm
         obtain ⟨x, s2, _, h3⟩ := bind_ok_inv h2
@@ -688,7 +711,7 @@ theorem formatSystem_cases (ev : Event) (s : St) :
         refine ⟨Or.inr rfl, ?_⟩
         rw [hsys] at hm
         simp only at hm
-        rcases hl : ev.level with _ | (_ | _ | _) <;> rw [hl] at hm <;> simp only at hm
+        rcases hl : ev.level with _ | (_ | _ | _ | _) <;> rw [hl] at hm <;> simp only at hm
         all_goals
           obtain ⟨ln, s1, _, h2⟩ := bind_ok_inv hm
           obtain ⟨x, s2, _, h3⟩ := bind_ok_inv h2
@@ -700,6 +723,10 @@ theorem formatSystem_cases (ev : Event) (s : St) :
         rw [hsys] at hm
         exact ⟨_, rfl, by simp, hm⟩
       | hostile =>
+        right; left
+        rw [hsys] at hm
+        exact ⟨_, rfl, by simp, hm⟩
+      | bytes =>
         right; left
         rw [hsys] at hm
         exact ⟨_, rfl, by simp, hm⟩
